@@ -176,6 +176,7 @@ func (e *Exec) mergeGroup(baseLen int, g []Outcome) (Outcome, bool) {
 	st.PC = append(st.PC, ts.Or(m.conds...))
 	st.Notes = append([]string{}, g[0].St.Notes...)
 	st.SplitTag = g[0].St.SplitTag
+	st.Overrides = g[0].St.Overrides
 	return Outcome{Kind: OutReturn, St: st, Ret: ret}, true
 }
 
